@@ -96,6 +96,18 @@ func stream(rng *mrand.Rand, lens []int, protectedOnly, opaque bool) []byte {
 	return out
 }
 
+// splitHandshake re-frames the handshake message of a one-record flight as 2..3 handshake records.
+func splitHandshake(rng *mrand.Rand, rec []byte) []byte {
+	msg := rec[5:]
+	a := 1 + rng.IntN(len(msg)-1)
+	out := tlswire.Record(22, 0x0303, msg[:a])
+	if b := a + rng.IntN(len(msg)-a); b > a {
+		out = append(out, tlswire.Record(22, 0x0303, msg[a:b])...)
+		a = b
+	}
+	return append(out, tlswire.Record(22, 0x0303, msg[a:])...)
+}
+
 func genFlow(rng *mrand.Rand, kind string, keys []echgen.KeyPair, upLens, downLens []int) *flow {
 	f := &flow{kind: kind}
 	k := keys[rng.IntN(len(keys))]
@@ -120,6 +132,9 @@ func genFlow(rng *mrand.Rand, kind string, keys []echgen.KeyPair, upLens, downLe
 		f.keys = []ech.Key{k.TLSKey()}
 		if kind == "ech-retry" {
 			f.hrr = tlswire.HRRRecord(of.Outer.SessionID, 0x0017)
+			if rng.IntN(3) == 0 {
+				f.hrr = splitHandshake(rng, f.hrr) // a HelloRetryRequest may span several records
+			}
 			if rng.IntN(2) == 0 {
 				f.pre = tlswire.Record(20, 0x0303, []byte{1})
 			}
@@ -127,11 +142,21 @@ func genFlow(rng *mrand.Rand, kind string, keys []echgen.KeyPair, upLens, downLe
 			f.second, f.secondImage = re.Record(), image(re.Inner.Message())
 		} else if rng.IntN(2) == 0 {
 			f.hrr = tlswire.ServerHelloRecord(hellogen.Bytes(rng, 32), of.Outer.SessionID) // ordinary ServerHello in place of the HRR
+			switch rng.IntN(4) {
+			case 0:
+				f.hrr = splitHandshake(rng, f.hrr)
+			case 1: // a ServerHello that ends after compression_method (TLS 1.2 backends)
+				body := append([]byte{0x03, 0x03}, hellogen.Bytes(rng, 32)...)
+				body = append(append(body, byte(len(of.Outer.SessionID))), of.Outer.SessionID...)
+				body = append(body, 0xc0, 0x2f, 0x00)
+				f.hrr = tlswire.Record(22, 0x0303, append([]byte{2, 0, 0, byte(len(body))}, body...))
+			}
 		}
 	}
 	// while the Conn still inspects a direction, the records are the handshake's own: keep the first ones protected or small
 	f.up = stream(rng, upLens, false, kind == "plain")
-	f.down = stream(rng, downLens, false, kind == "plain")
+	// backend -> client: whatever follows the backend's first handshake message is opaque to the Conn
+	f.down = stream(rng, downLens, false, kind == "plain" || len(f.hrr) > 0)
 	if kind == "plain" && rng.IntN(3) == 0 {
 		// a TLS 1.2 style ServerHello without an extensions block, as an older backend sends it
 		body := append([]byte{0x03, 0x03}, hellogen.Bytes(rng, 32)...)
@@ -343,6 +368,16 @@ func replay(r *mon.Run, work string, idx int, rng *mrand.Rand, f *flow, s script
 		if rErr == nil {
 			r.Violate(work, idx, sig("read-no-error-at-end"), "reader stopped without an error", c)
 			return
+		}
+		if wErr != nil && len(f.second) > 0 && cutAt == len(client) && len(w) < len(f.hrr) {
+			// the transport failed before the whole HelloRetryRequest was written (the writer stopped there): the
+			// Conn may or may not have seen enough of it to treat the next hello as a retry
+			raw := append(append(append(append([]byte{}, f.firstImage...), f.pre...), f.second...), f.up...)
+			if sameUp(got, raw, f) {
+				r.Count("replays_ok", 1)
+				r.Count("retry_not_armed_after_write_failure_inside_the_hrr", 1)
+				return
+			}
 		}
 		if !(sameUp(got, lo, f) || sameUp(got, hi, f)) {
 			c["got_len"], c["want_len"] = len(got), len(lo)
